@@ -57,7 +57,7 @@ def main():
     excs = {}
     findings = []
     harness = []
-    ran = 0
+    ran = nontrivial = 0
     t0 = time.time()
     deadline = t0 + float(job.get("max_s", 1e9))
     stopped_at = None
@@ -77,6 +77,7 @@ def main():
         wd[1] = time.time()
         wd[0] = idx
         P.set_place(C.place_of(case))
+        calls0 = P.TOTAL[0]
         try:
             out = fam.run(case)
         except (C.HarnessBug, C.G.GuardError) as e:
@@ -97,6 +98,8 @@ def main():
                     excs[k] = [0, str(e)[:120], list(case)]
                 excs[k][0] += 1
         ran += 1
+        if P.TOTAL[0] != calls0:
+            nontrivial += 1
         bad = C.check_canaries()
         if bad:
             findings.append({"idx": idx, "kind": "canary-overwritten", "detail": bad})
@@ -111,7 +114,7 @@ def main():
     os.pwrite(pfd, b"%-15s\n" % b"done", 0)
     os.close(pfd)
     declared = {lib: sorted(v) for lib, v in P.DECLARED.items()}
-    res = {"ran": ran, "total": len(cases), "outcomes": outcomes, "exceptions": excs, "findings": findings,
+    res = {"ran": ran, "nontrivial": nontrivial, "tier": job["tier"], "seed": job["seed"], "total": len(cases), "outcomes": outcomes, "exceptions": excs, "findings": findings,
            "harness": harness[:5], "counts": P.counts(), "declared": declared, "deep_stats": P.STATS,
            "stopped_at": stopped_at, "wall": round(time.time() - t0, 2)}
     tmp = job["result"] + ".tmp"
